@@ -114,16 +114,24 @@ class ReverseProxy(TcpUpstreamConnectionHandler, HttpWebServerBasePlugin):
                 if self.choice.scheme == HTTP_PROTO
                 else self.choice.port or DEFAULT_HTTPS_PORT
             )
-            self.initialize_upstream(text_(self.choice.hostname), port)
+            addr = (text_(self.choice.hostname), port)
+            # Follow-up request on a kept-alive client connection:
+            # keep using the upstream connection we already have.
+            reuse = self.upstream is not None and \
+                not self.upstream.closed and \
+                self.upstream.addr == addr
+            if not reuse:
+                self.initialize_upstream(*addr)
             assert self.upstream
             try:
-                self.upstream.connect()
-                if self.choice.scheme == HTTPS_PROTO:
-                    self.upstream.wrap(
-                        text_(self.choice.hostname),
-                        as_non_blocking=True,
-                        ca_file=self.flags.ca_file,
-                    )
+                if not reuse:
+                    self.upstream.connect()
+                    if self.choice.scheme == HTTPS_PROTO:
+                        self.upstream.wrap(
+                            text_(self.choice.hostname),
+                            as_non_blocking=True,
+                            ca_file=self.flags.ca_file,
+                        )
                 request.path = self.choice.remainder
                 self.upstream.queue(
                     memoryview(
